@@ -129,6 +129,52 @@ def rsp_column(env, m, n, iters, fail_first=False, solver_kind='qr'):
                [[[v * (y2 + reg) for v in e] for e in r] for r in lhs], [[[-reg * v for v in e] for e in r] for r in rhs])
 
 
+def hybrid(env, m, n, p, cycles=1):
+    """HybridRSPNewtonSchulz.compute: the last reported proxy is the proxy of the returned X and the converged flag is computed from it"""
+    Sv = env.R.solver
+    A = env.qarr('a', (m, n), 'real')
+    _nz(env, A)
+    tol = Fraction(1, 10 ** 6) if env.symbolic else 1e-6
+    if not env.symbolic:
+        import numpy as np
+        np.random.seed(3)
+        X, info = Sv.HybridRSPNewtonSchulz(r=1, p=p, T=1, tol=tol, max_iter=cycles).compute(A)
+        res = info['residual_norms']
+        env.holds('converged flag = (last proxy <= tol)', info['converged'] == (bool(res) and res[-1] <= tol))
+        An, Xn = cm.as_nested(env, A), cm.as_nested(env, X)
+        true2 = _f2(_sub(cm.eye_nested(n), cm_matmul_nested(Xn, An)))
+        if info['converged']:
+            env.le('converged only if ||X A - I||_F / sqrt(n) <= 10 tol', true2, (10 * tol) ** 2 * n, slack=1e-9)
+        return
+    draws = []
+    from symex import shim, scalar as S
+
+    def hook(shape, tag):
+        import numpy as np
+        a = np.empty(shape, dtype=object)
+        for i in range(a.size):
+            shim.NP._ndraw += 1
+            a.flat[i] = S.CTX.newvar('rnd%d' % shim.NP._ndraw)
+        draws.append(a.view(shim.RArr))
+        return draws[-1]
+    shim.NP._draw_hook = hook
+    stub, state = _qr_stub_thin1(env)
+    env.stub_scipy_linalg('qr', stub)
+    try:
+        X, info = Sv.HybridRSPNewtonSchulz(r=1, p=p, T=1, tol=tol, max_iter=cycles).compute(env.twist(A))
+    finally:
+        shim.NP._draw_hook = None
+    res = info['residual_norms']
+    env.holds('one proxy per cycle', len(res) >= 1)
+    k = min(6, n)
+    Pi = [[[draws[c][i, j] for c in range(4)] for j in range(k)] for i in range(n)]
+    An, Xn = cm.as_nested(env, A), cm.as_nested(env, X)
+    proxy2 = _f2(_sub(Pi, cm_matmul_nested(Xn, cm_matmul_nested(An, Pi))))
+    env.eq('last reported proxy is the proxy of the returned X', [res[-1] ** 2 * _f2(Pi)], [proxy2])
+    env.holds('converged flag = (last proxy <= tol)', info['converged'] == bool(res[-1] <= tol))
+    env.holds('info echoes the configuration', info['r'] == 1 and info['p'] == p and info['T'] == 1)
+
+
 def hyperpower(env, m, n, p):
     Sv = env.R.solver
     A = env.qarr('a', (m, n), 'real' if p > 2 else 'full')
@@ -174,6 +220,9 @@ def cells():
         out.append(Cell('rsp_column[%dx%d,iters=%d%s]' % (m, n, iters, ',micro-solver failure injected' if fail else ''), 'c13:rsp_column',
                         dict(m=m, n=n, iters=iters, fail_first=fail), tier=tier, twin=False,
                         bounds='A %dx%d real-axis symbolic, block size 1, all sketch draws symbolic' % (m, n), **big))
+    for (m, n), p, tier in [((1, 1), 2, 'quick'), ((2, 1), 2, 'quick'), ((2, 1), 3, 'quick'), ((2, 2), 2, 'thorough')]:
+        out.append(Cell('hybrid[%dx%d,p=%d]' % (m, n, p), 'c13:hybrid', dict(m=m, n=n, p=p), tier=tier, twin=False,
+                        bounds='A %dx%d real-axis symbolic, r = 1, T = 1, one cycle, all draws symbolic' % (m, n), **big))
     for (m, n), p, tier in [((1, 1), 2, 'quick'), ((2, 1), 2, 'quick'), ((2, 2), 2, 'thorough'), ((2, 1), 3, 'quick'), ((2, 1), 4, 'thorough')]:
         out.append(Cell('hyperpower[%dx%d,p=%d]' % (m, n, p), 'c13:hyperpower', dict(m=m, n=n, p=p), domain='z', tier=tier, timeout_s=900,
                         twin=((m, n, p) == (2, 1, 2)), bounds='A and X symbolic'))
